@@ -198,10 +198,18 @@ func (h *Hold) Release() {
 	h.relOnce.Do(func() { h.released.Store(true); close(h.release) })
 }
 
+// Fault is a one-shot injected storage error: the next matching operation fails without taking effect.
+type Fault struct {
+	op    string // read | copy | write | list
+	match func(rel string) bool
+	Hit   atomic.Bool
+}
+
 type gateLocState struct {
 	inner  locations.StorageLocation
 	root   string
-	mu     sync.Mutex // log, holds, pathID
+	faults []*Fault
+	mu     sync.Mutex // log, holds, pathID, faults
 	opMu   sync.Mutex // makes (inner effect, log append) one step, so log order = effect order
 	log    []LocEvent
 	pathID map[string]uint64
@@ -275,6 +283,33 @@ func (g *GateLocation) Hold(op string, match func(rel string, id uint64) bool) *
 	return h
 }
 
+// FailNext makes the next matching operation of the store's view ("read", "copy", "write", "list") fail once
+// with a transient storage error; nothing is changed in the storage.
+func (g *GateLocation) FailNext(op string, match func(rel string) bool) *Fault {
+	f := &Fault{op: op, match: match}
+	g.st.mu.Lock()
+	g.st.faults = append(g.st.faults, f)
+	g.st.mu.Unlock()
+	return f
+}
+
+var errInjected = errors.New("verif: injected transient storage error")
+
+func (g *GateLocation) injected(op, rel string) bool {
+	if g.role != "store" {
+		return false
+	}
+	g.st.mu.Lock()
+	defer g.st.mu.Unlock()
+	for _, f := range g.st.faults {
+		if !f.Hit.Load() && f.op == op && f.match(rel) {
+			f.Hit.Store(true)
+			return true
+		}
+	}
+	return false
+}
+
 // Parked counts the goroutines currently parked at a hold.
 func (g *GateLocation) Parked() int {
 	g.st.mu.Lock()
@@ -313,6 +348,10 @@ func (g *GateLocation) Write(p string, r io.Reader) (string, error) {
 	id := snapshotID(rel, data)
 	g.st.add(LocEvent{Role: g.role, Op: "write-call", Path: rel, ID: id})
 	g.st.park("write", rel, id)
+	if g.injected("write", rel) {
+		g.st.add(LocEvent{Role: g.role, Op: "write", Path: rel, ID: id, Err: errInjected.Error()})
+		return "", errInjected
+	}
 	g.st.opMu.Lock()
 	defer g.st.opMu.Unlock()
 	uri, err := g.st.inner.Write(p, bytes.NewReader(data))
@@ -326,6 +365,10 @@ func (g *GateLocation) Write(p string, r io.Reader) (string, error) {
 }
 
 func (g *GateLocation) Read(p string) ([]byte, error) {
+	if g.injected("read", relTo(g.st.root, p)) {
+		g.st.add(LocEvent{Role: g.role, Op: "read", Path: relTo(g.st.root, p), Err: errInjected.Error()})
+		return nil, errInjected
+	}
 	d, err := g.st.inner.Read(p)
 	g.st.add(LocEvent{Role: g.role, Op: "read", Path: relTo(g.st.root, p), Err: errStr(err)})
 	return d, err
@@ -335,6 +378,10 @@ func (g *GateLocation) List() iter.Seq2[string, error] {
 	g.st.add(LocEvent{Role: g.role, Op: "list-call"})
 	if g.role == "store" {
 		g.st.park("list", "", 0) // a slow listing: the directory is read when the hold is released
+	}
+	if g.injected("list", "") {
+		g.st.add(LocEvent{Role: g.role, Op: "list", Err: errInjected.Error()})
+		return func(yield func(string, error) bool) { yield("", errInjected) }
 	}
 	g.st.add(LocEvent{Role: g.role, Op: "list"})
 	return g.st.inner.List()
@@ -347,6 +394,10 @@ func (g *GateLocation) URI(p string) (string, error) {
 }
 
 func (g *GateLocation) Copy(src, dst string) error {
+	if g.injected("copy", relTo(g.st.root, dst)) {
+		g.st.add(LocEvent{Role: g.role, Op: "copy", Path: relTo(g.st.root, src), Dst: relTo(g.st.root, dst), Err: errInjected.Error()})
+		return errInjected
+	}
 	g.st.opMu.Lock()
 	defer g.st.opMu.Unlock()
 	err := g.st.inner.Copy(src, dst)
